@@ -10,6 +10,9 @@
 (***************************************************************************)
 EXTENDS CGLogic
 
+RECURSIVE SetToSeqApi(_)
+SetToSeqApi(S) == IF S = {} THEN <<>> ELSE LET x == CHOOSE y \in S : TRUE IN <<x>> \o SetToSeqApi(S \ {x})
+
 RECURSIVE TieInputs(_,_)
 TieInputs(st, S) == IF S = {} THEN st ELSE LET n == CHOOSE x \in S : TRUE IN
                     TieInputs(AddN(st, n, "input", <<>>, <<"c0_" \o n, "c1_" \o n>>, FALSE), S \ {n})
@@ -46,4 +49,51 @@ UnrollFrom(st, c, n, sio, itr) ==
            s3 == IF itr = 0 THEN SetFrom(s2, {UName(p[2], 0) : p \in sio}) ELSE ConnState(s2, sio, itr)
        IN UnrollFrom(s3, c, n, sio, itr + 1)
 UnrollModel(c, n, sio) == UnrollFrom(EmptySt, c, n, sio, 0)
+
+(* ---- tx.subcircuit(c, nodes) (modify_io = False) and tx.sensitization_transform(c, n, endpoints) ---- *)
+Restrict(c, N) ==
+  [nodes |-> N, ty |-> [x \in N |-> c.ty[x]], out |-> [x \in N |-> c.out[x]],
+   edges |-> {e \in c.edges : e[1] \in N /\ e[2] \in N}, bbs |-> <<>>]
+RECURSIVE BackClose(_,_)
+BackClose(c, T) == LET T2 == T \cup UNION {FanIn(c, x) : x \in T} IN IF T2 = T THEN T ELSE BackClose(c, T2)
+\* E = {} stands for "endpoints not given"
+SensModel(c, n, E) ==
+  LET sub == IF E = {} THEN c
+             ELSE LET N == BackClose(c, E) IN [Restrict(c, N) EXCEPT !.out = [x \in N |-> x \in E]]
+      m   == MiterModel(sub, sub, ScInputs(sub), ScOutputs(sub))
+      c1n == "c1_" \o n
+      m1  == DisconnectRes(m, SetToSeqApi(FanIn(m, c1n)), <<c1n>>).st
+      m2  == SetTypeRes(m1, <<c1n>>, "not").st
+  IN Conn1(m2, "c0_" \o n, c1n)
+
+(* ---- tx.strip_blackboxes(c, ignore_pins) and tx.sequential_unroll (default prefix) ---- *)
+RECURSIVE LastDotApi(_,_)
+LastDotApi(x, i) == IF i < 1 THEN 0 ELSE IF SubSeq(x, i, i) = "." THEN i ELSE LastDotApi(x, i - 1)
+PinPartApi(x) == SubSeq(x, LastDotApi(x, Len(x)) + 1, Len(x))
+RECURSIVE DotsToUnder(_,_)
+DotsToUnder(x, i) == IF i > Len(x) THEN "" ELSE (IF SubSeq(x, i, i) = "." THEN "_" ELSE SubSeq(x, i, i)) \o DotsToUnder(x, i + 1)
+StripBlackboxesModel(c, ign) ==
+  LET pins == {x \in c.nodes : c.ty[x] \in {"bb_input", "bb_output"}}
+      gone == {x \in pins : PinPartApi(x) \in ign}
+      c1 == RemoveNodes(c, gone)
+      c2 == [c1 EXCEPT !.ty  = [x \in c1.nodes |-> IF c1.ty[x] = "bb_input" THEN "buf" ELSE IF c1.ty[x] = "bb_output" THEN "input" ELSE c1.ty[x]],
+                       !.out = [x \in c1.nodes |-> IF c1.ty[x] = "bb_input" THEN TRUE ELSE c1.out[x]],
+                       !.bbs = <<>>]
+      f(x) == IF x \in pins THEN DotsToUnder(x, 1) ELSE x
+  IN Relabel(c2, f)
+\* c : named state with flop instances of one type [ins, outs]; d, q : pin names; ign : set of ignored pin names
+SeqUnrollModel(c, n, d, q, ign, addFlopOutputs, init, removeUnloaded) ==
+  LET cs0 == StripBlackboxesModel(c, ign)
+      insts == DOMAIN c.bbs
+      bb == c.bbs[CHOOSE b \in insts : TRUE]
+      cs1 == RemoveNodes(cs0, {Pfx(b, p) : b \in insts, p \in (bb.ins \ {d}) \cup (bb.outs \ {q})})
+      cs2 == IF removeUnloaded
+             THEN RemoveNodes(cs1, {x \in cs1.nodes : cs1.ty[x] = "input" /\ FanOut(cs1, x) = {} /\ ~cs1.out[x]})
+             ELSE cs1
+      sio == {<<Pfx(b, d), Pfx(b, q)>> : b \in insts}
+      uc  == UnrollModel(cs2, n, sio)
+      u1  == [uc EXCEPT !.out = [x \in uc.nodes |-> IF \E b \in insts, t \in 0..(n-1) : x = UName(Pfx(b, d), t)
+                                                   THEN addFlopOutputs ELSE uc.out[x]]]
+  IN [u1 EXCEPT !.ty = [x \in u1.nodes |-> IF \E b \in insts : x = UName(Pfx(b, q), 0) /\ init[b] # "free"
+                                            THEN init[CHOOSE b \in insts : x = UName(Pfx(b, q), 0)] ELSE u1.ty[x]]]
 =============================================================================
